@@ -19,16 +19,8 @@ def panosBlocks : List (Sess × Cls) := [
    .ite .err "err != nil" (.ret .keep ["err"]) .skip ;;
    .ite (.flag .pend) "s.Result == \"PEND\"" .cont
      (.ite (.flag .jobOk) "s.Result == \"OK\"" (.ret .nil ["nil"]) (.ret .err ["_"])), .A),
-  (panosHttpGet .login (.lit "keygen") ;;
-   .ite .err "err != nil" (.ret .err ["", "_"]) .skip ;;
-   panosParseResponse ;;
-   .ite .err "" (.ret .keep []) .skip ;;
-   .ite (.not (.flag .keyOk)) "" (.ret .err []) (.ret .nil []), .A),
-  (panosHttpPrefixGetLog .login (.lit "show ha") ;;
-   .ite .err "err != nil" (.ret .err ["false"]) .skip ;;
-   panosParseResponse ;;
-   .ite .err "err != nil" (.ret .err ["false"]) .skip ;;
-   .ite (.not (.flag .haActive)) "" (.ret .err ["false"]) (.ret .nil ["true"]), .A),
+  (panosGetAPIKeyBody, .A),
+  (panosCheckHABody, .A),
   (panosHttpPrefixGetLog .read (.lit "get config") ;;
    .ite .err "err != nil" (.ret .keep ["nil", "err"]) .skip ;;
    .call "parseResponseConfig" ["_"] (
@@ -49,23 +41,20 @@ theorem panosBlocks_sound : ∀ q o, (q, o) ∈ panosBlocks →
   · exact panos_checkha_block
   · exact panos_config_block
 
+def nsxReadBlock (t : Txt) : Sess :=
+  nsxSendRequest .read t ["GET", "_", "nil"] ;;
+  .ite .err "err != nil" (.ret .keep ["nil", "err"]) .skip ;;
+  jsonUnmarshal ;;
+  .ite .err "err != nil" (.ret .err ["nil", "_"]) .skip
+
 def nsxBlocks : List (Sess × Cls) := [
   (nsxSendRequest .change .cur ;; .ite .err "err != nil" (.ret .keep ["err"]) .skip, .A),
-  (nsxSendRequest .read (.lit "gateway-policies") ;;
-   .ite .err "err != nil" (.ret .keep ["nil", "err"]) .skip ;;
-   jsonUnmarshal ;;
-   .ite .err "err != nil" (.ret .err ["nil", "_"]) .skip, .A),
-  (nsxSendRequest .read (.lit "services") ;;
-   .ite .err "err != nil" (.ret .keep ["nil", "err"]) .skip ;;
-   jsonUnmarshal ;;
-   .ite .err "err != nil" (.ret .err ["nil", "_"]) (.ret .nil ["_", "nil"]), .A),
-  (nsxSendRequest .read (.lit "groups") ;;
-   .ite .err "err != nil" (.ret .keep ["nil", "err"]) .skip ;;
-   jsonUnmarshal ;;
-   .ite .err "err != nil" (.ret .err ["nil", "_"]) (.ret .nil ["_", "nil"]), .A),
+  (nsxReadBlock (.lit "gateway-policies"), .A),
+  (nsxReadBlock (.lit "services"), .A),
+  (nsxReadBlock (.lit "groups"), .A),
   (.roundTrip .login (.lit "session create") false ;;
-   .ite .err "err != nil" (.mark .logWarn ;; .ret .err ["err"]) .skip ;;
-   .ite .not200 "resp.StatusCode != http.StatusOK" (.mark .logWarn ;; .ret .err ["_"]) .skip, .A) ]
+   .ite .err "err != nil" (.ret .keep ["err"]) .skip ;;
+   .ite .not200 "resp.StatusCode != http.StatusOK" (.ret .err ["_"]) .skip, .A) ]
 
 theorem nsxBlocks_sound : ∀ q o, (q, o) ∈ nsxBlocks →
     ∀ env s, J (badChecked .nsx) s → G (badChecked .nsx) o (exec q env s) := by
@@ -73,9 +62,9 @@ theorem nsxBlocks_sound : ∀ q o, (q, o) ∈ nsxBlocks →
   simp only [nsxBlocks, List.mem_cons, List.mem_nil_iff, or_false, Prod.mk.injEq] at h
   rcases h with ⟨rfl, rfl⟩ | ⟨rfl, rfl⟩ | ⟨rfl, rfl⟩ | ⟨rfl, rfl⟩ | ⟨rfl, rfl⟩
   · exact nsx_change_block
-  · exact nsx_read_block _ _ _ _ (Or.inl rfl)
-  · exact nsx_read_block _ _ _ _ (Or.inr ⟨_, rfl⟩)
-  · exact nsx_read_block _ _ _ _ (Or.inr ⟨_, rfl⟩)
+  · exact nsx_read_block _ _ _ _ _ (Or.inl rfl)
+  · exact nsx_read_block _ _ _ _ _ (Or.inl rfl)
+  · exact nsx_read_block _ _ _ _ _ (Or.inl rfl)
   · exact nsx_login_block
 
 /-- PAN-OS / NSX: a program the checker accepts keeps the invariant -/
